@@ -422,6 +422,21 @@ func genExtract(r *hx.Rand) xcase {
 				}
 			}
 		}
+		if r.Chance(1, 5) {
+			// separator confusion: the same name spelled (partly) with backslashes. On unix
+			// these are ordinary file-name bytes; code that "normalises" them after the escape guard turns
+			// a harmless single element into a traversal.
+			alt := "\\"
+			var nn []byte
+			for _, b := range nm {
+				if b == '/' && r.Chance(2, 3) {
+					nn = append(nn, alt...)
+				} else {
+					nn = append(nn, b)
+				}
+			}
+			nm = nn
+		}
 		fl := byte('0')
 		switch x := r.Intn(20); {
 		case x < 11:
